@@ -1211,6 +1211,8 @@ def c10(res, tier, seed):
     done = run_queries(qs)
 
     def replay(q):
+        if q.meta.get("order"):
+            return replay_order(q)
         if q.status == "sat" and not q.model:
             return ("violated", "%s: found %s" % (q.name, q.meta), dict(kind="table", fact=q.name, meta=q.meta), dict(clause="label", group=q.meta.get("group")))
         return None
@@ -1223,38 +1225,76 @@ def c10(res, tier, seed):
 
 
 def order_queries(ex, tier):
-    """PartialOrd/Ord of both state kinds order states by score"""
+    """PartialOrd/Ord of both state kinds order states by score (so that max() is the best replica).
+    The shape is opaque: scores are arbitrary reals (negative ones included, as for LJ states)."""
     qs = []
-    data = S.real_data()
-    shape = S.shape_value(data["shapes"]["circle"])
-    exg = E.load(generics={"S": "molecular_shape2::MolecularShape2"})
-    f_pc = E.find_fn(exg, r"^packed::.*::partial_cmp$")
-    f_sc = E.find_fn(exg, r"^packed::<impl at [^>]*>::score$")
-    s1 = S.state("packed", "p1", shape, F("a1"), 1.0, 1.5707963267948966, 0.0, 0.0, 0.0)
-    s2 = S.state("packed", "p1", shape, F("a2"), 1.0, 1.5707963267948966, 0.0, 0.0, 0.0)
-    big = [T.fcmp("flt", 2.5, F("a1")), T.fcmp("flt", 2.5, F("a2")), T.fcmp("flt", F("a1"), 50.0), T.fcmp("flt", F("a2"), 50.0)]
-    sc1, p1, _ = E.run(exg, f_sc, [E.ByRef(s1)])
-    sc2, p2, _ = E.run(exg, f_sc, [E.ByRef(s2)])
-    r, p3, _ = E.run(exg, f_pc, [E.ByRef(s1), E.ByRef(s2)])
-    def some_val(en):
-        return [(c, f[0]) for c, vn, f in en.alts if vn == "Some"]
-    v1, v2 = some_val(sc1), some_val(sc2)
-    if len(v1) == 1 and len(v2) == 1:
-        a_sc, b_sc = v1[0][1], v2[0][1]
-        both = [v1[0][0], v2[0][0]]
-        # result is Some(Less) iff score1 < score2, etc.
-        def is_ord(en, name):
-            out = []
-            for c, vn, f in en.alts:
-                if vn == "Some":
-                    for c2, on, _ in f[0].alts:
-                        if on == name:
-                            out.append(T.band(c, c2))
-            return T.bor(*out)
-        for name, rel in (("Less", T.fcmp("flt", a_sc, b_sc)), ("Greater", T.fcmp("flt", b_sc, a_sc)), ("Equal", T.fcmp("feq", a_sc, b_sc))):
-            qs.append(Query("PackedState::partial_cmp == Some(%s) exactly when the scores compare that way" % name, big + p1 + p2 + p3 + both + [xor(is_ord(r, name), rel)], timeout=120,
-                            meta=dict(fn="PackedState::partial_cmp + score"), witness=big + both))
+    exo = E.load(generics={"S": "opaque::Shape"})
+    opaque = Agg("struct:OpaqueShape", [])
+    for kind, mod in (("packed", "packed"), ("potential", "potential")):
+        f_sc = E.find_fn(exo, r"^%s::<impl at [^>]*>::score$" % mod)
+        s1 = S.state(kind, "p1", opaque, F("a1"), F("q1"), F("t1"), F("x1"), F("y1"), F("h1"), family="Monoclinic")
+        s2 = S.state(kind, "p1", opaque, F("a2"), F("q2"), F("t2"), F("x2"), F("y2"), F("h2"), family="Monoclinic")
+        sc1, p1, _ = E.run(exo, f_sc, [E.ByRef(s1)])
+        sc2, p2, _ = E.run(exo, f_sc, [E.ByRef(s2)])
+        v1 = [(c, f[0]) for c, vn, f in sc1.alts if vn == "Some"]
+        v2 = [(c, f[0]) for c, vn, f in sc2.alts if vn == "Some"]
+        if len(v1) != 1 or len(v2) != 1:
+            continue
+        # abstract the two scores by fresh reals tied to the executed terms (keeps the queries small)
+        A_, B_ = F("scoreA"), F("scoreB")
+        tie = [T.fcmp("feq", A_, v1[0][1]), T.fcmp("feq", B_, v2[0][1]), v1[0][0], v2[0][0]]
+        for meth in ("partial_cmp", "cmp"):
+            try:
+                f_m = E.find_fn(exo, r"^%s::<impl at [^>]*>::%s$" % (mod, meth))
+                np0 = len(exo.panics)
+                r, p3, _ = E.run(exo, f_m, [E.ByRef(s1), E.ByRef(s2)])
+                pan = exo.panics[np0:]
+            except Unsupported as e:
+                qs.append(Query("%s::%s orders states by score" % (kind, meth), [True], meta=dict(fn="%s::%s" % (kind, meth), unsupported=str(e)[:200])))
+                qs[-1].force_undischarged = str(e)
+                continue
+
+            def is_ord(en, name):
+                if en.ty == "Ordering":
+                    return T.bor(*[c for c, on, _ in en.alts if on == name])
+                out = []
+                for c, vn, f in en.alts:
+                    if vn == "Some":
+                        out.append(T.band(c, is_ord(f[0], name)))
+                return T.bor(*out)
+            for name, rel in (("Less", T.fcmp("flt", A_, B_)), ("Greater", T.fcmp("flt", B_, A_)), ("Equal", T.fcmp("feq", A_, B_))):
+                qs.append(Query("%s::%s gives %s exactly when the scores compare that way (scores any reals)" % (kind, meth, name), tie + p1 + p2 + p3 + [xor(is_ord(r, name), rel)], timeout=120,
+                                meta=dict(fn="%s::%s + score (S opaque)" % (kind, meth), kind=kind, order=True)))
+            if meth == "cmp":
+                pcs = [T.band(*pc) for pc, msg, fn, blk in pan if msg != "unreachable"]
+                qs.append(Query("%s::cmp does not panic when both scores are defined" % kind, tie + p1 + p2 + [T.bor(*pcs) if pcs else False], timeout=60, meta=dict(fn="%s::cmp" % kind, kind=kind, order=True)))
     return qs
+
+
+def replay_order(q):
+    """probe the real Ord on a few concrete states with negative, zero and positive scores"""
+    data = S.real_data()
+    groups = data["groups"]
+    kind = q.meta.get("kind")
+    if kind == "potential":
+        sj = shape_json_of(data["shapes"]["ljcircle"], "circle")
+        states = [state_json("potential", "p1", groups, sj, a_, 1.0, 1.5707963267948966, 0.0, 0.0, 0.0, family="Monoclinic") for a_ in (0.95, 1.0, 1.05, 1.12, 1.5, 3.0)]
+        k = "lj"
+    else:
+        sj = shape_json_of(data["shapes"]["circle"], "circle")
+        states = [state_json("packed", "p1", groups, sj, a_, 1.0, 1.5707963267948966, 0.0, 0.0, 0.0, family="Monoclinic") for a_ in (2.1, 2.5, 3.0, 4.0)]
+        k = "mol"
+    reqs = [(i, j) for i in range(len(states)) for j in range(len(states)) if i != j]
+    outs = native_eval([dict(fn="State::order", args=[k, states[i], states[j]]) for i, j in reqs])
+    for (i, j), o in zip(reqs, outs):
+        if "s1" not in o or o["s1"] is None or o["s2"] is None:
+            continue
+        a, b = unjf(o["s1"]), unjf(o["s2"])
+        want = "Less" if a < b else ("Greater" if a > b else "Equal")
+        if o["cmp"] != want or o["partial_cmp"] != want or (o["max_score"] not in ("panic", None) and abs(unjf(o["max_score"]) - max(a, b)) > 0):
+            return ("violated", "%s states with scores %.6g and %.6g: cmp=%s partial_cmp=%s max picks %s" % (kind, a, b, o["cmp"], o["partial_cmp"], o["max_score"]),
+                    dict(kind="eval", fn="State::order", states=[states[i], states[j]], result=o), dict(clause="order-by-score", state_kind=kind))
+    return ("spurious", "the real Ord agrees with the score order on the probe states")
 
 
 # ------------------------------------------------------------------------------ C03
@@ -1387,7 +1427,153 @@ def cutoff_coverage(res, ex, data, tier):
         record(res, qq, replay)
 
 
-PROPS = {"C12": c12, "C13": c13, "C14": c14, "C15": c15, "C16": c16, "C04": c04, "C10": c10, "C03": c03}
+
+# ------------------------------------------------------------------------------ C02
+
+def c02(res, tier, seed):
+    import math
+    data = S.real_data()
+    groups = data["groups"]
+    qs = []
+    exo = E.load(generics={"S": "opaque::Shape"})
+    f_sc = E.find_fn(exo, r"^packed::<impl at [^>]*>::score$")
+    a, q, t, x, y, th = F("a"), F("q"), F("t"), F("x"), F("y"), F("th")
+    opaque = Agg("struct:OpaqueShape", [])
+    c, s_ = T.uf("cos", [t]), T.uf("sin", [t])
+    pos = [T.fcmp("flt", 0.0, a), T.fcmp("flt", 0.0, q), T.fcmp("flt", 0.0, s_), T.fcmp("flt", 0.0, T.var("shape_area", "F")), T.fcmp("flt", 0.0, T.var("shape_R", "F"))]
+    for g in (["p1", "p2", "p2mg"] if tier == "quick" else list(groups)):
+        st = S.state("packed", g, opaque, a, q, t, x, y, th, family="Monoclinic")
+        sc, pc, _ = E.run(exo, f_sc, [E.ByRef(st)])
+        N = len(groups[g]["ops"])
+        somes = [(c_, f_[0]) for c_, vn, f_ in sc.alts if vn == "Some"]
+        ref = T.fbin("fdiv", T.fbin("fmul", T.var("shape_area", "F"), float(N)), T.fbin("fmul", T.fbin("fmul", a, T.fbin("fmul", a, q)), s_))
+        if not somes:
+            qs.append(Query("[%s] score can be defined" % g, [True], meta=dict(group=g)))
+            continue
+        cs, val = somes[0]
+        qs.append(Query("[%s] a defined score equals shape area x %d copies / (a * b * sin(angle))" % (g, N), pos + pc + [cs, T.bnot(T.fcmp("feq", val, ref))], timeout=120,
+                        meta=dict(group=g, fn="PackedState::score (S opaque) + total_shapes + Cell2::area"), witness=pos))
+    # polygon area: the real from_radial with symbolic radii, the real area(), against the shoelace area
+    ex = E.load()
+    f_fr = E.find_fn(ex, r"^line_shape::.*::from_radial$")
+    f_la = E.find_fn(ex, r"^line_shape::<impl at [^>]*>::area$")
+    for n in ((3, 4) if tier == "quick" else (3, 4, 5, 6)):
+        radii = [F("r%d" % i) for i in range(n)]
+        rv, pc, _ = E.run(ex, f_fr, [Agg("str", ["P"]), Agg("vec", radii)])
+        okv = [f_[0] for c_, vn, f_ in rv.alts if vn == "Ok"]
+        if not okv:
+            qs.append(Query("polygon(%d): from_radial succeeds" % n, [True], meta=dict(n=n)))
+            continue
+        shape = okv[0]
+        ar, pc2, _ = E.run(ex, f_la, [E.ByRef(shape)])
+        items = shape.fields[1].fields
+        sh = 0.0
+        for e in items:
+            (x0, y0), (x1, y1) = e.fields[0].fields, e.fields[1].fields
+            sh = T.fbin("fadd", sh, T.fbin("fsub", T.fbin("fmul", x0, y1), T.fbin("fmul", x1, y0)))
+        # vertices run clockwise from (0, r): the signed shoelace sum is negative
+        shoelace = T.fbin("fmul", -0.5, sh)
+        box = []
+        for r in radii:
+            box += [T.fcmp("fle", 0.5, r), T.fcmp("fle", r, 2.0)]
+        d = T.fbin("fsub", ar, shoelace)
+        qs.append(Query("polygon(%d): LineShape::area of from_radial(r_0..r_%d) equals the polygon's shoelace area within 1e-9 (radii in [1/2,2])" % (n, n - 1),
+                        box + pc + pc2 + [T.bor(T.fcmp("flt", 1e-9, d), T.fcmp("flt", d, -1e-9))], timeout=120 if tier == "quick" else 900, meta=dict(n=n, fn="LineShape::from_radial + area"), witness=box))
+    # discs
+    f_ma = E.find_fn(ex, r"^molecular_shape2::<impl at [^>]*>::area$")
+    f_tr = E.find_fn(ex, r"^molecular_shape2::.*::from_trimer$")
+    one = Agg("struct:MolecularShape2", [Agg("str", ["c"]), Agg("vec", [sym_atom("a")])])
+    ar1, pc1, _ = E.run(ex, f_ma, [E.ByRef(one)])
+    qs.append(Query("single disc: area == pi r^2", pc1 + [T.bnot(T.fcmp("feq", ar1, T.fbin("fmul", math.pi, T.fbin("fmul", F("ar"), F("ar")))))], meta=dict(fn="MolecularShape2::area")))
+    two = Agg("struct:MolecularShape2", [Agg("str", ["c"]), Agg("vec", [sym_atom("a"), sym_atom("b")])])
+    ar2, pc2_, _ = E.run(ex, f_ma, [E.ByRef(two)])
+    ax_, ay_, ar_, bx_, by_, br_ = F("ax"), F("ay"), F("ar"), F("bx"), F("by"), F("br")
+    dd2 = T.fbin("fadd", T.fbin("fmul", T.fbin("fsub", ax_, bx_), T.fbin("fsub", ax_, bx_)), T.fbin("fmul", T.fbin("fsub", ay_, by_), T.fbin("fsub", ay_, by_)))
+    dist = T.fun("fsqrt", dd2)
+
+    def lens(r, dseg):
+        return T.fbin("fsub", T.fbin("fmul", T.fbin("fmul", r, r), T.uf("acos", [T.fbin("fdiv", dseg, r)])), T.fbin("fmul", dseg, T.fun("fsqrt", T.fbin("fsub", T.fbin("fmul", r, r), T.fbin("fmul", dseg, dseg)))))
+    d1 = T.fbin("fdiv", T.fbin("fsub", T.fbin("fadd", T.fbin("fmul", dist, dist), T.fbin("fmul", ar_, ar_)), T.fbin("fmul", br_, br_)), T.fbin("fmul", 2.0, dist))
+    d2 = T.fbin("fdiv", T.fbin("fsub", T.fbin("fadd", T.fbin("fmul", dist, dist), T.fbin("fmul", br_, br_)), T.fbin("fmul", ar_, ar_)), T.fbin("fmul", 2.0, dist))
+    tot = T.fbin("fadd", T.fbin("fmul", math.pi, T.fbin("fmul", ar_, ar_)), T.fbin("fmul", math.pi, T.fbin("fmul", br_, br_)))
+    overl = T.fcmp("flt", dist, T.fbin("fadd", ar_, br_))
+    ref2 = T.ite(overl, T.fbin("fsub", tot, T.fbin("fadd", lens(ar_, d1), lens(br_, d2))), tot)
+    h2 = [T.fcmp("flt", 0.0, ar_), T.fcmp("flt", 0.0, br_), T.fcmp("flt", 0.0, dd2)]
+    qs.append(Query("two discs: area == pi r1^2 + pi r2^2 - lens(r1,r2,d) when they overlap, the plain sum otherwise", h2 + pc2_ + [T.bnot(T.fcmp("feq", ar2, ref2))], timeout=120, meta=dict(fn="MolecularShape2::area + circle_overlap + overlap_area")))
+    # trimer validity: the real constructor with symbolic (radius, angle, distance)
+    rr, ang, dst = F("radius"), F("angle"), F("distance")
+    tri, pct, _ = E.run(ex, f_tr, [rr, ang, dst])
+    atoms = tri.fields[1].fields
+    trig = []
+
+    def ufs(term, acc):
+        stack = [term]
+        while stack:
+            z = stack.pop()
+            if T.is_t(z):
+                if z.op == "uf" and z.args[0] in ("sin", "cos"):
+                    acc.setdefault(z.args[1].id, {})[z.args[0]] = z
+                stack.extend(w for w in z.args if T.is_t(w))
+    acc = {}
+    for at in atoms:
+        for v in list(at.fields[0].fields) + [at.fields[1]]:
+            ufs(v, acc)
+    for k, dct in acc.items():
+        if "sin" in dct and "cos" in dct:
+            trig.append(T.fcmp("feq", T.fbin("fadd", T.fbin("fmul", dct["sin"], dct["sin"]), T.fbin("fmul", dct["cos"], dct["cos"])), 1.0))
+            trig += [T.fcmp("fle", 0.0, dct["sin"]), T.fcmp("fle", 0.0, dct["cos"])]   # angle/2 in [0, 90] degrees
+    dom = [T.fcmp("fle", 0.2, rr), T.fcmp("fle", rr, 1.5), T.fcmp("fle", 0.2, dst), T.fcmp("fle", dst, 2.5)]
+    px, py = F("px"), F("py")
+    inside = []
+    for at in atoms:
+        cx, cy = at.fields[0].fields
+        r_ = at.fields[1]
+        inside.append(T.fcmp("flt", T.fbin("fadd", T.fbin("fmul", T.fbin("fsub", px, cx), T.fbin("fsub", px, cx)), T.fbin("fmul", T.fbin("fsub", py, cy), T.fbin("fsub", py, cy))), T.fbin("fmul", T.fbin("fmul", r_, r_), 0.81)))
+    qs.append(Query("trimer: no point lies (well) inside all three discs, so pairwise inclusion-exclusion is the union area (radius in [0.2,1.5], distance in [0.2,2.5], any angle)",
+                    dom + trig + pct + inside, timeout=120, meta=dict(fn="MolecularShape2::from_trimer + area", expected="finding", kind="triple-overlap")))
+    c0x, c0y = atoms[0].fields[0].fields
+    c1x, c1y = atoms[1].fields[0].fields
+    dcen2 = T.fbin("fadd", T.fbin("fmul", T.fbin("fsub", c0x, c1x), T.fbin("fsub", c0x, c1x)), T.fbin("fmul", T.fbin("fsub", c0y, c1y), T.fbin("fsub", c0y, c1y)))
+    gap = T.fbin("fsub", atoms[0].fields[1], atoms[1].fields[1])
+    qs.append(Query("trimer: no outer disc lies inside the central disc (where the lens formula takes acos of a value > 1)", dom + trig + pct + [T.fcmp("flt", 0.0, gap), T.fcmp("flt", dcen2, T.fbin("fmul", T.fbin("fmul", gap, gap), 0.81))], timeout=120,
+                    meta=dict(fn="MolecularShape2::from_trimer + area", expected="finding", kind="containment")))
+    done = run_queries(qs)
+
+    def replay(qq):
+        m = qq.model
+        kind = qq.meta.get("kind")
+        if kind in ("triple-overlap", "containment"):
+            r_, d_ = m.get("radius"), m.get("distance")
+            if r_ is None or d_ is None:
+                return ("spurious", "no numeric model")
+            for angd in (40.0, 60.0, 90.0, 120.0, 20.0, 150.0, 180.0):
+                dd = S.real_data(extra_trimers=[(r_, angd, d_)])
+                key = [k for k in dd["shapes"] if k.startswith("trimer:") and k != "trimer:0.637556,120,1"]
+                shp = dd["shapes"][key[-1]]
+                o = oracle("area", [], shape_json_of(shp, "Trimer"))
+                if "area" not in o:
+                    continue
+                av, ov = unjf(o["area"]), unjf(o["oracle"])
+                if av != av:
+                    return ("violated", "MolecularShape2::from_trimer(%.4g, %g, %.4g).area() is NaN (a disc lies inside another one); true union area %.6g" % (r_, angd, d_, ov),
+                            dict(kind="oracle-area", radius=r_, angle=angd, distance=d_, result=o), dict(clause="trimer-area", kind="containment-nan"))
+                if abs(av - ov) > 1e-6 * max(1.0, ov):
+                    return ("violated", "MolecularShape2::from_trimer(%.4g, %g, %.4g).area() = %.6g but the union of the three discs has area %.6g" % (r_, angd, d_, av, ov),
+                            dict(kind="oracle-area", radius=r_, angle=angd, distance=d_, result=o), dict(clause="trimer-area", kind="inclusion-exclusion"))
+            return ("spurious", "area agrees with the exact union area for the probed angles")
+        if "polygon(" in qq.name:
+            return ("spurious", "polygon model not replayed natively")
+        return None
+    for qq in done:
+        record(res, qq, replay)
+    res.functions = used_fns(ex) + used_fns(exo)
+    res.stubs = summaries_used()
+    res.bounds = ["score formula: groups with 1, 2, 4 copies, any cell; polygons n in {3,4%s} with symbolic radii in [1/2,2]; molecules of 1 and 2 discs exactly, 3 discs (trimer) through a validity query on the constructor's parameter space" % ("" if tier == "quick" else ",5,6")]
+    res.assumptions = ["R-mode; acos/sqrt as in the lens formula of MathWorld (the formula itself is trusted, calculus over acos is not decided)", "'score <= 1' is a corollary of this property and C01, not a separate obligation",
+                       "float sin/cos constants of the polygon vertices are the real libm values (Python's math = the C library)"]
+
+PROPS = {"C12": c12, "C13": c13, "C14": c14, "C15": c15, "C16": c16, "C04": c04, "C10": c10, "C03": c03, "C02": c02}
+
 
 
 
